@@ -139,6 +139,7 @@ def classify(ctx, events, v, n, tag, trace_path):
                      "not the Ready in which it became leader (%d times)" % (e.get("n"), e.get("count", 0)))
     if e.get("ev") == "restarted":
         sig["class"] = "restart-failed"
+        sig["why"] = e.get("why", "")
         sig["orphan_chain"] = sum(1 for x in died if x.get("point") == "snap.file") >= 2
         return sig, "restart failed after crashes at %s" % [x.get("point") for x in died]
     if e.get("ev") == "read":
@@ -186,7 +187,7 @@ def run(ctx):
         if (weak if w is None else w) and n == 1:
             a.append("-weak")
         ck = True
-        if not pebble_avoid:
+        if not pebble_avoid and engine == "pebble":
             iso = False        # c14-pebble-checkpoint-release-timer is repaired: pebble is strict everywhere
         if engine == "pebble" and not iso and pebble_avoid:
             extra = extra + ["-snapcount", "1000000"]   # avoid rule of c14-pebble-checkpoint-release-timer
@@ -216,8 +217,13 @@ def run(ctx):
                         add("r3%s-%s-%s-k%d" % (role[0], eng, p, 1), 3, eng, "restart",
                             ["-point", p, "-k", "1", "-victim", role, "-ops", "40"],
                             iso=(eng == "pebble" and p != "restart.replayed"))
-        for p in (INSTALL if not ctx.quick() else [INSTALL[ctx.seed % 4]]):
+        # snap.install.released races with the restore of the installed snapshot: known finding
+        # c06-torn-restore-blocks-engine-open, isolate stage only
+        gen_install = [p for p in INSTALL if p != "snap.install.released"]
+        for p in (gen_install if not ctx.quick() else [gen_install[ctx.seed % 3]]):
             add("i3-%s-%s" % (eng, p), 3, eng, "install", ["-point", p], iso=(eng == "pebble"))
+        if eng == "mem":
+            add("isolate-torn-restore", 3, "mem", "install", ["-point", "snap.install.released"], iso=True)
     if ctx.quick():
         pick = rnd.sample(RAFT + APPLY + SNAP, 4)
         add("p3l-mem-" + pick[0], 3, "mem", "point", ["-point", pick[0], "-victim", "leader"])
@@ -349,7 +355,7 @@ def run(ctx):
         if good:
             def drop_op(ev):
                 i = next(j for j, e in enumerate(ev) if e.get("ev") == "ok" and any(
-                    x.get("ev") == "inv" and x["id"] == e["id"] and x["op"]["t"] in ("incr", "lpush", "hincrby") for x in ev))
+                    x.get("ev") == "inv" and x["id"] == e["id"] and x["op"]["t"] == "hincrby" for x in ev))     # a hash field is never overwritten: the loss stays visible
                 idd = ev[i]["id"]
                 return [e for e in ev if not (e.get("id") == idd and e.get("ev") in ("inv", "ok"))]
 
